@@ -616,8 +616,9 @@ def cumprod(x, axis=None, out=None, out_like=None, sizing='optimal', method='raw
     signed = x.signed
     # the k-th running product has k * n_frac fractional bits: the result keeps the finest of them ...
     n_frac = x.size * x.n_frac if x.n_frac >= 0 else x.n_frac
-    # ... and needs k * (n_word - sign) magnitude bits plus the n_frac - k * n_frac bits it is shifted by (largest at k = 1 or k = size)
-    n_word = max(x.size * x.n_word, int(signed) + max(k * (x.n_word - int(signed)) + n_frac - k * x.n_frac for k in (1, x.size)))
+    # ... and needs k * (n_word - sign) magnitude bits (one more for an even power of the most negative value) plus the
+    # n_frac - k * n_frac bits it is shifted by (largest at k = 1 or k = size)
+    n_word = max(x.size * x.n_word, 2 * int(signed) + max(k * (x.n_word - int(signed)) + n_frac - k * x.n_frac for k in (1, x.size)))
     n_int = n_word - int(signed) - n_frac
     optimal_size = (signed, n_word, n_int, n_frac)
 
